@@ -108,9 +108,8 @@ ApplyCtx(t) ==
 (* added); the interval's bytes are the edited bytes plus one run of fewer *)
 (* than N whole nops, placed at or before the aligned code, inside blocks. *)
 (***************************************************************************)
-\* KF-C10-2 (findings/KF-C10-2): ELF module without an alignment table:
-\* prepare_for_rewriting hands a private empty dict to join_byte_intervals, so
-\* the entry the patch adds to the (new) module table is not honoured.
+\* (FX-C10-2: ELF modules without an alignment table used to ignore the entry
+\* the patch adds; a relapse is a violation of C10_AlignmentHolds.)
 AlPatchCtx(t) ==
   LET iv == t.pre.ivs[1]
       dom == /\ WellFormed(t.pre) /\ Len(t.pre.ivs) = 1 /\ iv.addr # -1 /\ iv.init = iv.size
@@ -131,14 +130,11 @@ AlPatchCtx(t) ==
       \* with the block it was inserted into)
       IsPatchReq(e) == e.a = t.pn /\ e.addr >= 0 /\ SubSeq(d.by, e.o + 1, e.o + Len(t.pa)) = t.pa
       newreq == {e \in Range(t.alx) : IsPatchReq(e)}
-      kf2 == /\ t.v.fmt = "elf" /\ t.tabpre = "absent"
-             /\ broken # {} /\ \A e \in broken : IsPatchReq(e)
-             /\ d.by = edited
   IN  [clauses |->
          << <<"C10_Completes", dom, t.exc = "" /\ t.stage = "done", <<t.exc, t.stage>>, {}>>,
             <<"C10_PaddingLegal", done, pl, <<"bytes", d.by, edited>>, {}>>,
             <<"C10_AlignmentHolds", shape, broken = {} /\ newreq # {} /\ t.tabpost = "entries",
-              <<broken, t.tabpre, t.tabpost>>, IF kf2 THEN {"KF-C10-2"} ELSE {}>> >>,
+              <<broken, t.tabpre, t.tabpost>>, {}>> >>,
        drift |-> <<>>]
 
 Verdict(t) ==
